@@ -7,6 +7,14 @@ namespace RichModel
 namespace Totality
 open AsciiStr
 
+/-- `Except` values are compared in the witnesses (`by decide`). -/
+scoped instance instDecEqExceptC14 {ε α : Type} [DecidableEq ε] [DecidableEq α] : DecidableEq (Except ε α) := fun a b =>
+  match a, b with
+  | .ok x, .ok y => if h : x = y then isTrue (by rw [h]) else isFalse (fun h' => h (by cases h'; rfl))
+  | .error x, .error y => if h : x = y then isTrue (by rw [h]) else isFalse (fun h' => h (by cases h'; rfl))
+  | .ok _, .error _ => isFalse (fun h => by cases h)
+  | .error _, .ok _ => isFalse (fun h => by cases h)
+
 variable (P : PyStr)
 
 /-! ## `Color.parse` -/
